@@ -527,7 +527,7 @@ def overlap_cases():
 
 class C02(Check):
     pid = "C02"
-    props = ["C02_schedule.v"]
+    props = ["C02_schedule.v", "C02_selectors_fresh.v"]
     rule = ("tracing programs with 0-3 rules of each of the five kinds in shuffled source order (each prints its id, $, $index when "
             "every root is an array, $file), patterns absent/true/false/data-dependent, body-less rules, next/exit planted at a chosen "
             "activation through a counter, over 0-3 files x 0-3 values x 0-2 selectors with array (length 0-4), object, scalar and null "
